@@ -454,12 +454,12 @@ _CMP_CALLS = {"std::cmp::PartialOrd::lt": "Lt", "std::cmp::PartialOrd::le": "Le"
               "std::cmp::PartialEq::eq": "Eq", "std::cmp::PartialEq::ne": "Ne"}
 
 
-def order_facts(body, X, bb):
+def order_facts(body, X, bb, conds=None):
     """[(expr a, op, expr b, cond block)]: comparisons `a op b` that hold on every path entry->bb, whatever the surface
     form: `a > b`, `a.gt(&b)`, `match a.cmp(&b) { Greater => .. }` (or the negation / complement arms of those)"""
     from mir import strip
     out = []
-    for cnd, truth in dominating_conditions(body, bb):
+    for cnd, truth in (dominating_conditions(body, bb) if conds is None else conds):
         if cnd.kind == "cmp":
             op = cnd.op if truth else NEG_OP[cnd.op]
             out.append((strip(X.operand(body, cnd.a)), op, strip(X.operand(body, cnd.b)), cnd.bb))
@@ -480,12 +480,64 @@ _VARIANT_TESTS = {"std::option::Option::is_some": ("Some", "None"), "std::option
                   "std::result::Result::is_ok": ("Ok", "Err"), "std::result::Result::is_err": ("Err", "Ok")}
 
 
-def variant_facts(body, X, bb, _depth=0):
+def path_conditions(body, bb, max_paths=64, max_len=400):
+    """the conditions taken along each acyclic path entry->bb: [[(Cond, truth)], ..] (None if there are too many paths);
+    used where a fact holds on every path without being forced by a single dominating branch
+    (`(Some(a), _) => ..` reached from `tlv == None` and from the failed guard `a != b`)"""
+    if bb not in body.reachable:
+        return []
+    can = set()
+    stack = [bb]
+    while stack:
+        x = stack.pop()
+        if x in can:
+            continue
+        can.add(x)
+        stack.extend(body.pred[x])
+    out = []
+
+    def go(x, seen, conds):
+        if len(out) > max_paths or len(conds) > max_len:
+            raise OverflowError()
+        if x == bb:
+            out.append(list(conds))
+            return
+        t = body.term(x)
+        succs = [y for y in body.succ[x] if y in can and y not in seen]
+        c = decode_switch(body, x) if t["k"] == "switch" else None
+        for y in succs:
+            add = []
+            if c is not None:
+                if c.kind in ("cmp", "bool", "call"):
+                    ft = bool_edge_targets(body, x)
+                    if ft is not None and ft[0] != ft[1]:
+                        truth = (y == ft[1])
+                        if c.negated:
+                            truth = not truth
+                        add = [(c, truth)]
+                elif c.kind == "enum":
+                    names = [c.variants.get(v, v) for v, tg in t["arms"] if tg == y]
+                    if y == t["otherwise"]:
+                        covered = {c.variants.get(v, v) for v, tg in t["arms"]}
+                        names += [n for n in c.variants.values() if n not in covered]
+                    add = [(c, tuple(sorted(set(names))))]
+                elif c.kind == "int":
+                    vals = [v for v, tg in t["arms"] if tg == y]
+                    add = [(c, ("not", tuple(v for v, tg in t["arms"])) if y == t["otherwise"] and not vals else ("in", tuple(vals)))]
+            go(y, seen | {y}, conds + add)
+    try:
+        go(0, {0}, [])
+    except (OverflowError, RecursionError):
+        return None
+    return out
+
+
+def variant_facts(body, X, bb, _depth=0, conds=None):
     """[(expr, variants tuple, Cond)]: on every path entry->bb the value `expr` is one of `variants`; from `match`/`if let`
     (a switch on the discriminant) and from `if e.is_some()` / `is_none()` / `is_ok()` / `is_err()` alike"""
     from mir import strip
     out = []
-    for c, truth in dominating_conditions(body, bb):
+    for c, truth in (dominating_conditions(body, bb) if conds is None else conds):
         if c.kind == "enum":
             out.append((strip(X.place(body, c.place)), truth, c))
         elif c.kind == "call" and c.call.name in _VARIANT_TESTS and c.call.args:
